@@ -539,6 +539,14 @@ def malformed(ctx, geom, n_cases):
         b = plan(KINDS[i % 6], D, torus_b, tb, 1, rng)
         for op in ("add", "sub", "eq"):
             run_case(ctx, geom, {"op": op, "a": a, "b": b, "label": "malformed stream"})
+        if mode in (0, 1, 2) and set(ta_types) != set(tb_types):
+            # the SHARED types hold equal blocks: only the key sets tell the operands apart, so `a == b` and
+            # `b == a` must both be False and +/- must reject, whichever side holds the extra type
+            tb_same = targets(D, tb_types, lead, spatial, True, 1000, 1)
+            b2 = plan(KINDS[(i + 1) % 6], D, [True, True], tb_same, 1, rng)
+            for op in ("eq", "add", "sub"):
+                run_case(ctx, geom, {"op": op, "a": a, "b": b2, "label": "type sets differ, shared blocks equal"})
+                run_case(ctx, geom, {"op": op, "a": b2, "b": a, "label": "type sets differ, shared blocks equal (swapped)"})
     # histories the library itself refuses
     blk = wblock(np.ones((2, 2, 2), dtype=np.int64))
     bad_hist = [
